@@ -1,6 +1,6 @@
 SPECIFICATION Spec
 CONSTANTS
- OuterNames <- AllOuters
+ OuterNames <- Outers5
  InnerNames <- AllInners
  KeyLists <- KL_one
  ClientKeys <- OneKey
